@@ -212,7 +212,7 @@ def explain_unsat_implies(op1_signal, op2_signal, intervals):
 def explain_sat_always(op_signal, intervals):
     op_intervals = []
     if intervals:
-        begin, end = intervals[0]
+        begin = min(i[0] for i in intervals)
         op_intervals.append([begin, len(op_signal)-1])
     return op_intervals
 
@@ -220,7 +220,7 @@ def explain_sat_always(op_signal, intervals):
 def explain_sat_historically(op_signal, intervals):
     op_intervals = []
     if intervals:
-        begin, end = intervals[0]
+        end = max(i[1] for i in intervals)
         op_intervals.append([0, end])
     return op_intervals
 
@@ -264,7 +264,7 @@ def explain_sat_once(op_signal, intervals):
 def explain_unsat_once(op_signal, intervals):
     op_intervals = []
     if intervals:
-        begin, end = intervals[0]
+        end = max(i[1] for i in intervals)
         op_intervals.append([0, end])
     return op_intervals
 
@@ -308,7 +308,7 @@ def explain_unsat_historically(op_signal, intervals):
 def explain_unsat_eventually(op_signal, intervals):
     op_intervals = []
     if intervals:
-        begin, end = intervals[0]
+        begin = min(i[0] for i in intervals)
         op_intervals.append([begin, len(op_signal)-1])
     return op_intervals
 
